@@ -33,6 +33,8 @@ def gen(rng: random.Random, tier: str):
         yield {"scores": raw, "transform": rng.choice(["linear", None]), "cfg_n": rng.choice([None, -1, 0, 1, 3, 20]),
                "run_n": rng.choice([None, None, -1, 0, 2, 5, 50]), "us": [rng.uniform(1e-6, 1) for _ in range(nfin)],
                "perm": rng.sample(range(N), N), "kind": "stochastic" if k % 4 else "random"}
+    for _ in range({"quick": 6, "thorough": 60}[tier]):
+        yield {"kind": "anonymous", "seed": rng.randrange(10**6), "which": rng.choice(["random", "stochastic", "stochastic-linear"])}
     if tier == "thorough":
         yield {"kind": "odds", "weights": [1.0, 2.0, 3.0, 0.5], "draws": 20000, "seed": rng.randrange(10**6)}
 
@@ -51,6 +53,14 @@ def run(case: dict, lean: Lean) -> Outcome:
         dev = [abs(f / case["draws"] - x / tot) / math.sqrt((x / tot) * (1 - x / tot) / case["draws"]) for f, x in zip(first, w)]
         ok = max(dev) < 6.0          # false-alarm probability ≈ 8e-9 per run
         return Outcome(True, ok, ("first-position odds",), {"first": first, "z": dev}, None)
+    if case["kind"] == "anonymous":
+        # a component seeded per user serves queries that carry no user identifier: every execution is a new draw
+        il = ItemList(item_ids=list(range(100, 108)), scores=np.linspace(0.5, 4.0, 8))
+        mk = {"random": lambda: RandomSelector(n=3, rng=(case["seed"], "user")), "stochastic": lambda: StochasticTopNRanker(n=3, rng=(case["seed"], "user")),
+              "stochastic-linear": lambda: StochasticTopNRanker(n=3, transform="linear", rng=(case["seed"], "user"))}[case["which"]]
+        comp = mk(); outs = [tuple(int(i) for i in comp(il).ids()) for _ in range(40)]
+        ok = len(set(outs)) > 1          # 40 identical ordered triples out of 336 have probability < 1e-90 under any of the configured laws
+        return Outcome(True, ok, ("anonymous queries under a user-derived seed",), {"distinct_outcomes": len(set(outs)), "first": list(outs[0])}, None)
     raw = [_f(x) for x in case["scores"]]; N = len(raw)
     fin = [x for x in raw if math.isfinite(x)]
     il = ItemList(item_ids=[10 + i for i in range(N)], scores=np.array(raw, dtype="f8") if N else np.array([], dtype="f8"), tag=[f"t{i}" for i in range(N)])
@@ -74,6 +84,7 @@ def run(case: dict, lean: Lean) -> Outcome:
             if any(out.field("tag")[k] != f"t{p}" for k, p in enumerate(real)): failed.append("fields not carried with the items")
         spec = not failed
         return Outcome(spec, spec, ("uniform selection", "n above eligible" if n_eff > N else "n within"), {"impl": real, "failed": failed}, None)
+    before = il.scores().copy() if N else np.array([])
     g = Scripted(us=case["us"])
     rk = StochasticTopNRanker(n=case["cfg_n"], transform=case["transform"]); rk._rng_factory = lambda _q: g
     try:
@@ -85,6 +96,10 @@ def run(case: dict, lean: Lean) -> Outcome:
     pos = lean.call("c19.rank", dict(scores=scs, nCfg=case["cfg_n"], nRun=case["run_n"], weights=w,
                                      logu=[rat(math.log(u)) for u in case["us"]], eps=rat(EPS)))
     corr = real == pos
+    after = il.scores()
+    if N and not np.array_equal(before, after, equal_nan=True): failed.append("the candidate list's scores were changed by the ranker")
+    if not isinstance(real, str) and len(real) and not np.array_equal(before[np.array(real, dtype="i8")], out.scores(), equal_nan=True):
+        failed.append("returned items do not carry their original scores")
     if not isinstance(real, str):
         if len(set(real)) != len(real): failed.append("repeated item")
         if any(not math.isfinite(raw[p]) for p in real): failed.append("item without a finite score selected")
@@ -107,7 +122,7 @@ def run(case: dict, lean: Lean) -> Outcome:
     return Outcome(corr, spec and corr, tuple(classes), {"impl": real, "model": pos, "failed": failed}, None)
 
 def shrink(case: dict):
-    if case.get("kind") in ("stochastic", "random"):
+    if case.get("kind") in ("stochastic", "random") and "scores" in case:
         for i in range(len(case["scores"])):
             c = dict(case); c["scores"] = case["scores"][:i] + case["scores"][i + 1:]
             nf = sum(1 for x in c["scores"] if isinstance(x, float)); c["us"] = case["us"][:nf]
